@@ -258,10 +258,12 @@ func HarnessC26RoundTrip() {
 	ttl := verifrt.NondetI64("ttl")
 	verifrt.Assume(ttl >= 0)
 	// expiry: at least one hour in the future (so the native clock agrees), at most year 9999
-	sec := verifrt.NondetI64("sec")
+	// (relative to the clock reading, so that a witness means the same thing under the virtual and the real clock)
+	delta := verifrt.NondetI64("delta")
 	nsec := verifrt.NondetI64("nsec")
-	verifrt.Assume(sec >= now.Unix()+3600)
-	verifrt.Assume(sec <= zz26MaxSec)
+	verifrt.Assume(delta >= 3600)
+	verifrt.Assume(delta <= zz26MaxSec-3000000000) // real clocks read < 3e9 s until 2065
+	sec := now.Unix() + delta
 	verifrt.Assume(nsec >= 0)
 	verifrt.Assume(nsec < 1000000000)
 	if verifrt.NondetRange("nsecClass", 0, 1) == 0 { // case split for the native witnesses (RFC3339Nano trims zeros)
@@ -349,7 +351,7 @@ func HarnessC26RoundTrip() {
 	verifrt.Observe("ttl", ttl)
 	if e, err := rec.Validity(); err == nil {
 		// natively this goes through the real RFC3339Nano formatter and parser
-		verifrt.Observe("eolSec", e.Unix())
+		verifrt.Observe("eolSecAfterNow", e.Unix()-now.Unix())
 		verifrt.Observe("eolNsec", e.Nanosecond())
 	}
 
